@@ -110,6 +110,8 @@ impl BuildOptimiser {
     pub fn build(&self) -> MCOptimiser {
         let kt_ratio = match (self.kt_ratio, self.kt_finish) {
             (Some(ratio), _) => 1. - ratio,
+            // A zero temperature stays zero, there is no finite factor taking it anywhere else
+            (None, Some(_)) if self.kt_start == 0. => 1.,
             (None, Some(finish)) => f64::powf(finish / self.kt_start, 1. / self.steps as f64),
             (None, None) => 0.1,
         };
